@@ -16,7 +16,7 @@ from ..xlref.values import norm
 
 ID = 'C17'
 LEVEL = 'exploration'
-ALPHA = ['a', 'B', 'c', 'Я', ' ', '?', '*', '~', '.', '(', '[', '\\', '+']
+ALPHA = ['a', 'B', 'c', 'Я', ' ', '?', '*', '~', '.', '(', '[', '\\', '+', 'ß', '\ufb01', '\u0149']      # ß, the ligature fi, 'n: their upper() is two letters
 RULE = ('texts over {a B c Я blank ? * ~ . ( [ \\ +}: all of length <=2 and a sample of length 3 (thorough: all of length <=3) plus random '
         'texts up to length 8; LEFT/RIGHT/MID with counts and positions in [-2..len+2] (and defaults), each raw and wrapped in "["&..&"]"; '
         'the rebuild law LEFT(t,n)&MID(t,n+1,len)=t for 0<=n<len; SEARCH with needles = substrings, case variants, wildcard patterns '
